@@ -672,6 +672,12 @@ class Interp:
                     return len(recv) == 0
                 if name == 'get' and len(args) == 1 and isinstance(args[0], int):
                     return ('ctor', SOME, (recv[args[0]],)) if 0 <= args[0] < len(recv) else ('ctor', NONE)
+                if isinstance(recv, tuple) and not args and name in ('last', 'first', 'last_mut', 'first_mut'):
+                    return opt((recv[-1] if name.startswith('last') else recv[0]) if recv else None)
+                if isinstance(recv, tuple) and not args and name in ('split_last', 'split_first'):
+                    if not recv:
+                        return ('ctor', NONE)
+                    return ('ctor', SOME, ((recv[-1], recv[:-1]) if name == 'split_last' else (recv[0], recv[1:]),))
                 if name == 'parse' and isinstance(recv, str) and not args:
                     ty = (e.get('gargs') or [''])[0]
                     if ty in INT_BOUNDS and recv.isdigit():
@@ -1139,6 +1145,7 @@ class RecInterp(FxInterp):
         self.record_fns = set(record_fns)
         self.stubs = dict(stubs or {})      # method name -> value it evaluates to (a modelled getter)
         self.calls = []
+        self.trace = []                     # (name, receiver value or None, [argument values]) in call order
 
     def val(self, e, env):
         k = e.get('k')
@@ -1155,6 +1162,7 @@ class RecInterp(FxInterp):
                     except Unanalysable:
                         args.append(('opaque',))
                 self.calls.append((last_seg(path), args))
+                self.trace.append((last_seg(path), None, args))
                 return ('rec', last_seg(path), None, args)
         if k == 'match' and 'TryDesugar' in (e.get('src') or ''):
             # `recorded_call(..)?`: the recorded effect is assumed to succeed
@@ -1194,6 +1202,7 @@ class RecInterp(FxInterp):
             except Unanalysable:
                 recv = None
             self.calls.append((e['name'], args))
+            self.trace.append((e['name'], recv, args))
             return ('rec', e['name'], recv, args)
         if k == 'mcall':
             # adaptors applied to the result of a recorded call (`.map(Some)`, `.map_err(..)`, `?`-less chains) keep standing for that result
